@@ -53,6 +53,17 @@ CLAIMED["C20"] = ("4/C20", "The data layer's two entry points (_TzdbStreamData._
                   "k = 2 substituted bytes (the property's fault space goes to k = 4) and not every position: damage in the middle of a long "
                   "transition chain is outside the bounds; insertions/deletions only as truncation; memory exhaustion is not modelled; the "
                   "second database file under tests/ is not loaded")
+CLAIMED["C02"] = ("4/C02", "The calculators' leap rule, year length, year start, month count / length / offset and day number against the PUBLISHED "
+                  "arithmetic (Dershowitz-Reingold fixed dates, published leap-year lists, epochs derived from their Julian/Gregorian dates) for "
+                  "every year of the range: ISO, Gregorian, Julian, Coptic closed forms in one query each; 8 tabular Islamic variants per position "
+                  "of the 30-year cycle; Persian simple and arithmetic (from 475) tables in 512-year windows; ISO weekday; ISO against the pure-Python "
+                  "standard library (_pydatetime._ymd2ord/_ord2ymd executed symbolically); Hebrew: the molad arithmetic cut from the current source "
+                  "into three statement groups, each equal to the classical definition (19-year cycle, BaHaRaD + lunations, four postponements) for "
+                  "every input, their composition, the year-cache entry over an abstract elapsed-days function, and both month numberings over an "
+                  "abstract cache entry.",
+                  "observed at the calculator level (LocalDate composes these through C01's lemmas); Hebrew year-length legality uses year kinds "
+                  "tabulated from the real code per 180-year window; Persian arithmetic before 475, Persian astronomical, Um Al Qura and Badi have no "
+                  "published arithmetic and are outside the property; quick runs seeded subsets of months / cycle positions / windows")
 CLAIMED["C11"] = ("4/C11", "Real OffsetDateTime/OffsetDate/OffsetTime/Instant code over the DayCalendar abstraction (dates are day numbers; "
                   "contract C01 + C09): construction local = instant + offset, to_instant inverse, with_offset (both double day carries), "
                   "with_calendar, +/- Duration in all six spellings (instant moves exactly; offset and calendar retained), plus_<unit>, "
